@@ -13,7 +13,7 @@ namespace ConcVerif.Trigger
 def Pc.holds (m : Side) : Pc → Bool
   | .aClear | .aUnlockT | .tHold _ _ _ => decide (m = .trig)
   | .aHold _ _ | .rLocked | .rLoop | .rRelease | .rStore | .rUnlock _ => decide (m = .act)
-  | .wHold k _ | .wTimedOut k | .wUnlock k _ => decide (k.side = m)
+  | .wHold k _ | .wTimedOut k | .wLate k | .wUnlock k _ => decide (k.side = m)
   | _ => false
 
 /-- stored `true` into flag `m`, `notify_all` still to come -/
@@ -41,7 +41,7 @@ def Pc.sawFalse (m : Side) : Pc → Bool
 
 /-- pcs only the timed waits can be at -/
 def Pc.needsTimed : Pc → Option WKind
-  | .wTimedOut k | .wUnlock k false | .wRet k false => some k
+  | .wTimedOut k | .wLate k | .wUnlock k false | .wRet k false => some k
   | _ => none
 
 /-- inside `activate()`, between the clear step and the set-active step -/
@@ -654,8 +654,15 @@ theorem invL_step (s : St) (t : Tid) (e : Ev) (s' : St) (h : InvL s) (hs : step 
           · intro m' hx; simp [Pc.sawFalse] at hx; exact ⟨hx.symm, hg.1⟩
           · intro k' hx; simp [Pc.needsTimed] at hx; subst hx; exact hg.2
         · contradiction
+      · split at hs
+        · rename_i hg; injection hs with hs; subst hs
+          refine invL_cwk h hpc hm rfl rfl ?_ rfl (by intro m'; simp [Pc.holds, eq_comm]) (by trg_pcs hpc)
+            (by trg_pcs hpc) ?_
+          · simp [List.erase_of_not_mem hg.1, updS_self]
+          · intro k' hx; simp [Pc.needsTimed] at hx; subst hx; exact hg.2
+        · contradiction
     · contradiction
-  case h_30 =>
+  case h_30 | h_43 =>
     rename_i k a v hpc; split at hs
     · rename_i hg; obtain ⟨ha, hv⟩ := hg; subst ha; injection hs with hs; subst hs
       cases v
@@ -709,7 +716,7 @@ theorem invL_step (s : St) (t : Tid) (e : Ev) (s' : St) (h : InvL s) (hs : step 
     · injection hs with hs; subst hs
       exact invL_pc h rfl rfl rfl rfl (by trg_pcs hpc) (by trg_pcs hpc) (by trg_pcs hpc) (by trg_pcs hpc) (by trg_pcs hpc) (by trg_pcs hpc)
     · contradiction
-  case h_43 => contradiction
+  case h_44 => contradiction
 
 theorem invL_reachable {a : Bool} {s : St} (h : Reachable a s) : InvL s := by
   obtain ⟨es, hes⟩ := h
@@ -1104,8 +1111,11 @@ theorem invG_step (s : St) (t : Tid) (e : Ev) (s' : St) (hl : InvL s) (h : InvG 
       · split at hs
         · injection hs with hs; subst hs; trg_gpc h hpc
         · contradiction
+      · split at hs
+        · injection hs with hs; subst hs; trg_gpc h hpc
+        · contradiction
     · contradiction
-  case h_30 =>
+  case h_30 | h_43 =>
     rename_i k a v hpc; split at hs
     · rename_i hg; obtain ⟨ha, hv⟩ := hg; subst ha; injection hs with hs; subst hs
       cases v
@@ -1133,7 +1143,7 @@ theorem invG_step (s : St) (t : Tid) (e : Ev) (s' : St) (hl : InvL s) (h : InvG 
   case h_38 =>
     rename_i hpc; injection hs with hs; subst hs
     exact invG_setInactive h hpc rfl rfl rfl rfl rfl rfl rfl
-  case h_43 => contradiction
+  case h_44 => contradiction
 
 /-! ## generic facts about one step, and `InvT` (a waiter that saw `true` under the mutex) -/
 
